@@ -70,35 +70,46 @@ structure Cfg where
 
 /-- the request as far as the body code is concerned.  `cache` is
 `environ['ombott.request.body']` — the buffered copy with its current file position — which also
-replaces `environ['wsgi.input']` once it exists. -/
+replaces `environ['wsgi.input']` once it exists; `bodyError` is
+`environ['ombott.request.body.error']`: the error of a failed read, kept because the stream is
+spent. -/
 structure Req where
   cfg : Cfg
   clHeader : Option Str
   teHeader : Option Str
   input : Rec
   cache : Option (Sink × Nat) := none
+  bodyError : Option Err := none
   deriving Repr
 
-/-- `BodyMixin._body` (a `cache_in` property): read once, keep, rewind.
+/-- `BodyMixin._body` (a `cache_in` property): read once, keep, rewind; a failed read stays
+failed.
 ```
+err = environ.get('ombott.request.body.error')
+if err is not None: self._raise(err, RequestError)
 try: body = _body_read(environ['wsgi.input'].read, config.max_memfile_size, content_length=…,
                        chunked=…, max_body_size=config.max_body_size, markup=…)
-except RequestError as err: self._raise(err, RequestError)
+except RequestError as err:
+    environ['ombott.request.body.error'] = err.with_traceback(None)
+    self._raise(err, RequestError)
 environ['wsgi.input'] = body; body.seek(0)
 ``` -/
-def Req.loadBody (q : Req) :
-    Except Err Sink × Req :=
+def Req.loadBody (q : Req) : Except Err Sink × Req :=
   match q.cache with
   | some (sk, _) => (.ok sk, q)
   | none =>
-    match contentLength q.clHeader with
-    | .error e => (.error e, q)
-    | .ok cl =>
-      match bodyRead q.cfg.memfile cl (isChunked q.teHeader) q.cfg.maxBody q.input with
-      | (.error e, r) =>
-        (.error (if isRequestError e then raise_ q.cfg.errorsMap e "RequestError" else e),
-         { q with input := r })
-      | (.ok sk, r) => (.ok sk, { q with input := r, cache := some (sk, 0) })
+    match q.bodyError with
+    | some e => (.error (raise_ q.cfg.errorsMap e "RequestError"), q)
+    | none =>
+      match contentLength q.clHeader with
+      | .error e => (.error e, q)
+      | .ok cl =>
+        match bodyRead q.cfg.memfile cl (isChunked q.teHeader) q.cfg.maxBody q.input with
+        | (.error e, r) =>
+          if isRequestError e then
+            (.error (raise_ q.cfg.errorsMap e "RequestError"), { q with input := r, bodyError := some e })
+          else (.error e, { q with input := r })
+        | (.ok sk, r) => (.ok sk, { q with input := r, cache := some (sk, 0) })
 
 /-- `Request.body`: `ret = self._body; ret.seek(0); return ret` -/
 def Req.body (q : Req) :
